@@ -26,8 +26,10 @@ Octet strings are argument lists of byte values.  What is covered (every item at
   tag octet and content; `DecodeValue::decode_value` with a header length equal to, below and above the available
   input and at Length::MAX.
 
-VERIF_C18_ORIG=1 maps the decoder cases to the `*_orig` model entries (the code before tools/fix_C18_*.diff): on the
-unfixed tree impl == model_orig everywhere and the only disagreements with the spec are the F8 / F25 classes."""
+The model follows the tree under test: when src/uint/encoding/der.rs (rlp.rs) does not contain the repair of
+tools/fix_C18_1.diff (fix_C18_2.diff) the DER (RLP) decoder cases are evaluated with the `*_orig` model entries (the
+code as found), so that on the unfixed tree impl == model everywhere and the disagreements with the spec are exactly
+the F8 / F25 inputs (a concrete failing input in the replay); VERIF_C18_ORIG=1 forces the `*_orig` entries."""
 import os
 from .common import Case
 from .gen import *
@@ -59,8 +61,20 @@ RLP_ENC_ROUTES = ['rlp.encode', 'rlp.encode.stream', 'rlp.encode.rlp_bytes', 'rl
 RLP_DEC_ROUTES = ['rlp.decode', 'rlp.decode.as_val', 'rlp.decode.trait']
 
 
+def _tree_has(path, needle):
+    try:
+        return needle in open(os.path.join(os.environ.get('VERIF_REPO') or '/repo', path)).read()
+    except OSError:
+        return True
+
+
+DER_REPAIRED = _tree_has('src/uint/encoding/der.rs', 'checked_sub')       # tools/fix_C18_1.diff
+RLP_REPAIRED = _tree_has('src/uint/encoding/rlp.rs', 'payload_info')      # tools/fix_C18_2.diff
+
+
 def mop_dec(name):
-    return name + '_orig' if ORIG else name
+    orig = ORIG or (name.startswith('der.') and not DER_REPAIRED) or (name.startswith('rlp.') and not RLP_REPAIRED)
+    return name + '_orig' if orig else name
 
 
 # ---------------------------------------------------------------- reference encoders (independent of the model)
@@ -267,7 +281,7 @@ def der_decoder_inputs(rng, n, vals, scale, full):
 
 
 def der_cases(tier, rng, cases):
-    scale = 1 if tier == 'quick' else 8
+    scale = 1 if tier == 'quick' else 24
     add = cases.append
     for n in DER_NS_ALL:
         full = n in DER_NS_FULL
@@ -403,7 +417,7 @@ def rlp_decoder_inputs(rng, n, scale):
 
 
 def rlp_cases(tier, rng, cases):
-    scale = 1 if tier == 'quick' else 8
+    scale = 1 if tier == 'quick' else 24
     add = cases.append
     for n in RLP_ENC_NS:
         vals = values_for(rng, n, marks=[54, 55, 56, 57, 255, 256, 257], count_rand=10 * scale, full=(n in (1, 2, 3, 4, 8, 16, 64, 256)))
